@@ -176,10 +176,14 @@ func (g *Gen) intSort() string {
 	return "Int"
 }
 
-func (g *Gen) num(n int64) string {
+func (g *Gen) pnum(n int64) string {
 	if g.bv {
 		return fmt.Sprintf("(_ bv%d 64)", uint64(n))
 	}
+	return g.num(n)
+}
+
+func (g *Gen) num(n int64) string {
 	if n < 0 {
 		return fmt.Sprintf("(- %d)", -n)
 	}
@@ -361,6 +365,8 @@ func (g *Gen) typeInvRec(v Val, t types.Type, cs *[]string) {
 			if bits, uns, ok := intBits(t); ok && bits < 64 {
 				if uns {
 					*cs = append(*cs, fmt.Sprintf("(bvule %s (_ bv%d 64))", x.T, (uint64(1)<<uint(bits))-1))
+				} else {
+					*cs = append(*cs, fmt.Sprintf("(= %s ((_ sign_extend %d) ((_ extract %d 0) %s)))", x.T, 64-bits, bits-1, x.T))
 				}
 			}
 			return
@@ -407,22 +413,18 @@ func (g *Gen) typeInvRec(v Val, t types.Type, cs *[]string) {
 	}
 }
 
-func (g *Gen) le(a, b string) string {
+// le, lt, add, sub, num: structural integers (references, offsets, lengths) - always SMT Int.
+func (g *Gen) le(a, b string) string { return "(<= " + a + " " + b + ")" }
+func (g *Gen) lt(a, b string) string { return "(< " + a + " " + b + ")" }
+
+// ple: comparison of program integers (bit-vectors in bv64 mode)
+func (g *Gen) ple(a, b string) string {
 	if g.bv {
 		return "(bvsle " + a + " " + b + ")"
 	}
 	return "(<= " + a + " " + b + ")"
 }
-func (g *Gen) lt(a, b string) string {
-	if g.bv {
-		return "(bvslt " + a + " " + b + ")"
-	}
-	return "(< " + a + " " + b + ")"
-}
 func (g *Gen) add(a, b string) string {
-	if g.bv {
-		return "(bvadd " + a + " " + b + ")"
-	}
 	if b == "0" {
 		return a
 	}
@@ -432,9 +434,6 @@ func (g *Gen) add(a, b string) string {
 	return "(+ " + a + " " + b + ")"
 }
 func (g *Gen) sub(a, b string) string {
-	if g.bv {
-		return "(bvsub " + a + " " + b + ")"
-	}
 	if b == "0" {
 		return a
 	}
